@@ -485,6 +485,11 @@ func (v *Verifier) runCase(p *packages.Package, fc *FuncContract, decl *ast.Func
 	for _, ax := range e.axioms {
 		v.assumeAxiom(s, env, ax)
 	}
+	// the case condition first: values it fixes turn products in the precondition into
+	// linear terms
+	if caseCond != nil {
+		s.assume(env.at(s, s).trBool(caseCond))
+	}
 	// requires
 	for _, c := range fc.clauses("requires") {
 		s.assume(env.at(s, s).trBool(c.Expr))
@@ -500,9 +505,6 @@ func (v *Verifier) runCase(p *packages.Package, fc *FuncContract, decl *ast.Func
 		if c.Loop == 0 && c.Kind == "use" && c.Where == "" {
 			v.applyUse(s, env.at(s, s), c, decl.Pos())
 		}
-	}
-	if caseCond != nil {
-		s.assume(env.at(s, s).trBool(caseCond))
 	}
 	if caseLabel == "cover" {
 		var cs []*Term
